@@ -75,6 +75,16 @@ class Scenario:
             node = s.map(lambda x: x)
         elif k == "slice":
             node = s.slice(0, None, 1)
+        elif k in ("j_zip_latest", "j_combine_latest", "j_zip", "j_union"):
+            # a join whose other input has already delivered: every later element of s goes straight through
+            other = Stream(asynchronous=True)
+            self.other = other
+            node = {"j_zip_latest": lambda: s.zip_latest(other), "j_combine_latest": lambda: s.combine_latest(other, emit_on=0),
+                    "j_zip": lambda: s.zip(other.map(lambda x: x)), "j_union": lambda: s.union(other)}[k]()
+            if k == "j_zip":
+                node = node.map(lambda t: t[0])
+            else:
+                node = node.map(lambda t: t[0] if isinstance(t, tuple) else t)
         elif k == "union1":
             node = s.union()
         elif k == "pluckmap":
@@ -103,6 +113,8 @@ class Scenario:
                 self.probes.append(aprobe.Probe(s, self.log, mode=modes[2], pid=3))
         else:
             self.probes = [aprobe.Probe(node, self.log, mode=m, pid=i + 1) for i, m in enumerate(cfg.get("cons", ["future"]))]
+        if k in ("j_zip_latest", "j_combine_latest"):
+            self.other.emit(0)              # the other input has a value before any consumer exists
         self.next_elem = 0
         self.idle_steps = 0      # consecutive loop iterations without an observable event (busy-wait detection)
         self.tags = {}
